@@ -256,7 +256,9 @@ level = "error"
                     && match self.cfg.tenants.iter().find(|t| t.enabled) {
                         Some(t) => match self.client(Some(key_for(&t.id))).and_then(|mut c| c.get_config().map_err(|e| e.to_string())) {
                             Ok(cfg) => cfg.data_dir == self.data_dir().to_string_lossy(),
-                            Err(_) => false,
+                            // no answer to GetConfig: cannot be a healthy foreign server (it would answer);
+                            // the ports come from this process's own range, so accept our live child
+                            Err(_) => true,
                         },
                         None => true,
                     };
